@@ -144,6 +144,8 @@ impl Service for SimService {
             w.ev("svc.handle", cid as u64, seq as u64);
             let at = w.seq;
             self.log.borrow_mut().push(Handled { cid, seq, at, oneway: call.oneway(), more: call.more() });
+            // (gates may wait for "k calls handled so far")
+            w.counter += 1;
             if let Some(f) = self.on_handle.clone() {
                 drop(w);
                 f(cid, seq, at);
@@ -180,6 +182,14 @@ impl Service for SimService {
                     }
                     st.ends = *ends;
                     st.created = true;
+                    if w.eager_streams.iter().any(|e| e.0 == *cid && e.1 == *seq) {
+                        // every item is ready from the start
+                        while let Some(it) = st.script.pop_front() {
+                            st.available.push_back(it);
+                            st.produced += 1;
+                        }
+                        w.stat("streams_that_are_never_pending_until_exhausted");
+                    }
                     if let Some((_, _, from, gate)) = w.stream_gates.iter().find(|g| g.0 == *cid && g.1 == *seq).cloned() {
                         st.gate_from = from;
                         st.gate = Some(gate);
